@@ -20,7 +20,7 @@ git -C $M/repo clean -qfd
 if [ "$patch" != none ]; then git -C $M/repo apply "$patch"; fi
 case "$id" in C18|c18) hd=harness-async; bin=va ;; C19|c19) hd=harness-udp; bin=vudp ;; *) hd=harness; bin=vq ;; esac
 extra=""
-case "$id" in C17|c17|C19|c19) extra=harness-async ;; esac
+case "$id" in C16|c16|C17|c17|C19|c19) extra=harness-async ;; esac
 for d in harness comp codec $hd $extra; do
   [ -d /verif/$d ] || continue
   mkdir -p $M/$d
